@@ -216,6 +216,11 @@ impl Peer {
         metainfo: &Metainfo,
     ) -> PieceCmd {
         match chosen_index {
+            // Peer is choking us, so nothing can be requested (and reserved) until Unchoke
+            Some(_) if self.choked => {
+                self.piece_index = None;
+                PieceCmd::Ignore
+            }
             Some(chosen_index) => {
                 pieces_status[chosen_index] = match pieces_status[chosen_index] {
                     Status::Reserved(peers_count) => Status::Reserved(peers_count + 1),
@@ -224,10 +229,7 @@ impl Peer {
                 };
 
                 self.piece_index = Some(chosen_index);
-                match self.choked {
-                    true => PieceCmd::Ignore,
-                    false => PieceCmd::SendRequest(req_data(&metainfo, chosen_index)),
-                }
+                PieceCmd::SendRequest(req_data(&metainfo, chosen_index))
             }
             None => {
                 self.piece_index = None;
